@@ -35,12 +35,15 @@ THEOREMS = [
     "OllamaVerif.C16.fit_only_if_placed",
     "OllamaVerif.C16.W1_overhead_wraps",
 ]
+# Code variant the model mirrors: "0" = pinned /repo; "1" = after proposed_fixes/C16-W1.patch is applied
+# (then also set KNOWN_FINDINGS W1 to fixed; the overhead-wrap cases must no longer fail L2).
+VARIANT = "0"
 OVERLAY = {"llm/zz_verif_c16_test.go": "llm/zz_verif_c16_test.go"}
 
 
 def run(ctx):
     ctx.lean_check(MODULES, THEOREMS)
-    env = {"VERIF_N": ctx.scale(6000, 150000),
+    env = {"VERIF_N": ctx.scale(6000, 150000), "VERIF_C16_VARIANT": os.environ.get("VERIF_C16_VARIANT", VARIANT),
            "VERIF_CORPUS": os.path.join(core.ROOT, "corpus", "C16")}
     if ctx.replay:
         env["VERIF_REPLAY"] = ctx.replay_line_file()
